@@ -202,10 +202,8 @@ func (m *Map) Clear() {
 // order of the real map.
 func (m *Map) Range(f func(key, value any) bool) {
 	vsched.Point(vsched.KMapRange)
-	if !vorder.Active() {
-		m.m.Range(f)
-		return
-	}
+	// The shim owns the (unspecified) visiting order: canonically sorted keys
+	// unless an order exploration chooses a permutation.
 	var keys []any
 	m.m.Range(func(k, _ any) bool {
 		keys = append(keys, k)
